@@ -1993,6 +1993,89 @@ def _suppress_to_try(tree: ast.Module) -> int:
   return n
 
 
+def _inline_enum_aliases(tree: ast.Module) -> int:
+  """`_ACTIVE = study_pb2.Trial.State.ACTIVE` (a private module-level name bound once to an enum member, or to a tuple /
+  frozenset of enum members) is substituted where it is read: the rules then see the member itself."""
+  def enum_chain(e) -> bool:
+    c = _chain(e)
+    return bool(c) and c.count('.') >= 1 and c.rsplit('.', 1)[1].isupper()
+
+  def enum_value(e) -> bool:
+    if enum_chain(e):
+      return True
+    if isinstance(e, (ast.Tuple, ast.List, ast.Set)) and e.elts and all(enum_chain(x) for x in e.elts):
+      return True
+    if isinstance(e, ast.Call) and isinstance(e.func, ast.Name) and e.func.id in ('frozenset', 'tuple', 'set') and len(e.args) == 1 \
+        and isinstance(e.args[0], (ast.Tuple, ast.List, ast.Set)) and e.args[0].elts and all(enum_chain(x) for x in e.args[0].elts):
+      return True
+    return False
+  stores: Dict[str, int] = {}
+  for x in ast.walk(tree):
+    if isinstance(x, ast.Name) and isinstance(x.ctx, (ast.Store, ast.Del)):
+      stores[x.id] = stores.get(x.id, 0) + 1
+  aliases: Dict[str, ast.AST] = {}
+  for st in tree.body:
+    tgt, val = None, None
+    if isinstance(st, ast.Assign) and len(st.targets) == 1 and isinstance(st.targets[0], ast.Name):
+      tgt, val = st.targets[0].id, st.value
+    elif isinstance(st, ast.AnnAssign) and isinstance(st.target, ast.Name) and st.value is not None:
+      tgt, val = st.target.id, st.value
+    if tgt and tgt.startswith('_') and not tgt.startswith('__') and stores.get(tgt) == 1 and enum_value(val):
+      aliases[tgt] = val
+  # class-level private constants used as self._X / cls._X / Cls._X
+  cls_aliases: Dict[Tuple[str, str], ast.AST] = {}
+  for c in tree.body:
+    if isinstance(c, ast.ClassDef):
+      for st in c.body:
+        tgt, val = None, None
+        if isinstance(st, ast.Assign) and len(st.targets) == 1 and isinstance(st.targets[0], ast.Name):
+          tgt, val = st.targets[0].id, st.value
+        elif isinstance(st, ast.AnnAssign) and isinstance(st.target, ast.Name) and st.value is not None:
+          tgt, val = st.target.id, st.value
+        if tgt and tgt.startswith('_') and not tgt.startswith('__') and enum_value(val):
+          cls_aliases[(c.name, tgt)] = val
+  if not aliases and not cls_aliases:
+    return 0
+  n = 0
+
+  class T(ast.NodeTransformer):
+    def __init__(self):
+      self.cls = None
+
+    def visit_ClassDef(self, c):
+      prev, self.cls = self.cls, c.name
+      self.generic_visit(c)
+      self.cls = prev
+      return c
+
+    def visit_Name(self, x: ast.Name):
+      nonlocal n
+      if isinstance(x.ctx, ast.Load) and x.id in aliases:
+        n += 1
+        return ast.copy_location(copy.deepcopy(aliases[x.id]), x)
+      return x
+
+    def visit_Attribute(self, x: ast.Attribute):
+      nonlocal n
+      if isinstance(x.ctx, ast.Load) and isinstance(x.value, ast.Name):
+        owner = self.cls if x.value.id in ('self', 'cls') else x.value.id
+        if (owner, x.attr) in cls_aliases:
+          # not when an instance attribute of the same name is assigned somewhere in the class
+          n += 1
+          return ast.copy_location(copy.deepcopy(cls_aliases[(owner, x.attr)]), x)
+      return self.generic_visit(x)
+  # instance attributes that shadow a class constant: drop those aliases
+  for c in tree.body:
+    if isinstance(c, ast.ClassDef):
+      for x in ast.walk(c):
+        if isinstance(x, ast.Attribute) and isinstance(x.ctx, (ast.Store, ast.Del)) and isinstance(x.value, ast.Name) \
+            and x.value.id in ('self', 'cls'):
+          cls_aliases.pop((c.name, x.attr), None)
+  T().visit(tree)
+  ast.fix_missing_locations(tree)
+  return n
+
+
 def _map_to_genexp(tree: ast.Module) -> int:
   """`map(f, xs)` with one iterable and a plain function reference is `(f(x) for x in xs)`: written out so that a private
   helper passed to map() is seen (and inlined) like any other call of it."""
@@ -2202,7 +2285,7 @@ def _propagate_param_aliases(fn: ast.FunctionDef) -> int:
 def normalise(tree: ast.Module, exclude: Optional[Set[str]] = None) -> int:
   """Inlines suitable private helpers in place; returns the number of inlined call sites."""
   ex = anchors() if exclude is None else exclude
-  n_disp = _suppress_to_try(tree) + _map_to_genexp(tree) + _expand_dispatch_tables(tree)
+  n_disp = _inline_enum_aliases(tree) + _suppress_to_try(tree) + _map_to_genexp(tree) + _expand_dispatch_tables(tree)
   inl = _Inliner(tree, ex)
   n = inl.run() + n_disp
   n += _unroll_literal_loops(tree)
